@@ -288,6 +288,84 @@ fn check_group(r: &mut Report, conns: &[Conn], group: &[usize], alone: &[Vec<Vec
     }
 }
 
+/// A table that is exactly as large as the number of connections: TLS connections that each need one slot at a time (a
+/// hello in two segments; a hello whose segment also carries the next record, answered by a server handshake record; a
+/// hello in one segment; garbage) in pairs on an analyzer with capacity 2, every interleaving; each connection's results
+/// must equal those of the connection alone. A finished connection must not keep occupying a slot.
+fn check_capacity_pressure(r: &mut Report) {
+    let mk = |k: u8, kind: usize| -> Conn {
+        let e = Ends { cip: 40 + k, cport: 47000 + k as u16, sip: 50 + k, sport: 443, v6: k % 2 == 1 };
+        let b = hello_bytes(&format!("pressure{k}.example"));
+        let t = T0 + 100 * k as u64;
+        let mut pkts = vec![(seg(&e, true, SYN, 1000, &[], None), t)];
+        match kind {
+            0 => {
+                pkts.push((seg(&e, true, ACK | PSH, 1001, &b[..45], None), t + 1));
+                pkts.push((seg(&e, true, ACK | PSH, 1046, &b[45..], None), t + 2));
+            }
+            1 => {
+                let mut x = b.clone();
+                x.extend(tls::record(0x14, 0x0303, &[1]));
+                x.extend([0x17, 0x03, 0x03, 0x00, 0x20, 9, 9, 9]);
+                pkts.push((seg(&e, true, ACK | PSH, 1001, &x, None), t + 1));
+                pkts.push((seg(&e, false, ACK | PSH, 5001, &tls::record(0x16, 0x0303, &[2, 0, 0, 38, 3, 3]), None), t + 2));
+                pkts.push((seg(&e, false, ACK | PSH, 5012, &[0u8; 20], None), t + 3));
+            }
+            2 => pkts.push((seg(&e, true, ACK | PSH, 1001, &b, None), t + 1)),
+            _ => {
+                pkts.push((seg(&e, true, ACK | PSH, 1001, &[0x16, 3, 1, 0, 200, 1, 0, 0], None), t + 1));
+                pkts.push((seg(&e, true, ACK | PSH, 1009, &[0xff; 30], None), t + 2));
+            }
+        }
+        Conn { name: format!("pressure-{}", ["hello-in-two-segments", "hello-plus-next-record-then-server-handshake", "hello-in-one-segment", "unfinished-record"][kind]), pkts }
+    };
+    let run2 = |an: An, pkts: &[(&Vec<u8>, u64)]| -> Result<Vec<String>, String> {
+        guarded(|| match an {
+            An::Tls => {
+                let mut a = TlsSeq::new(2);
+                pkts.iter().map(|(f, _)| format!("{:?}", a.feed(f))).collect()
+            }
+            _ => {
+                let cfg = huginn_net::AnalysisConfig { http_enabled: false, tcp_enabled: false, tls_enabled: true, matcher_enabled: false };
+                let mut a = huginn_net::HuginnNet::new(None, 2, Some(cfg)).expect("analyzer");
+                pkts.iter().map(|(f, _)| format!("{:?}", crate::drv::uni_res(&a.analyze_tcp(f)).tls)).collect()
+            }
+        })
+    };
+    for ka in 0..4usize {
+        for kb in 0..4usize {
+            let (a, b) = (mk(1, ka), mk(2 + (kb as u8 % 2), kb));
+            for an in [An::Tls, An::Unified] {
+                let alone: Vec<Vec<String>> = [&a, &b].iter().map(|c| run2(an, &c.pkts.iter().map(|(f, t)| (f, *t)).collect::<Vec<_>>()).unwrap_or_default()).collect();
+                for order in interleavings(&[a.pkts.len(), b.pkts.len()]) {
+                    let mut idx = [0usize; 2];
+                    let mut trace = vec![];
+                    let mut who = vec![];
+                    for &g in &order {
+                        let c = if g == 0 { &a } else { &b };
+                        trace.push((&c.pkts[idx[g]].0, c.pkts[idx[g]].1));
+                        who.push((g, idx[g]));
+                        idx[g] += 1;
+                    }
+                    r.exec(trace.len() as u64);
+                    let Ok(got) = run2(an, &trace) else {
+                        r.dev(format!("C07/{an:?}/panic"), "panic", || json!({"kind": "capacity-pressure", "connections": [a.name.clone(), b.name.clone()], "order": order}));
+                        continue;
+                    };
+                    r.outcome(&("pressure", ka, kb, got.iter().filter(|x| x.contains("ja4: Some")).count()));
+                    for (k, (g, i)) in who.iter().enumerate() {
+                        if alone[*g].get(*i) != Some(&got[k]) {
+                            let (victim, other) = if *g == 0 { (&a.name, &b.name) } else { (&b.name, &a.name) };
+                            r.dev(format!("C07/{an:?}/{victim}/disturbed-by/{other}/table-exactly-full"), "interference", || json!({"kind": "capacity-pressure", "analyzer": format!("{an:?}"), "capacity": 2, "connections": [a.name.clone(), b.name.clone()], "order": order, "packet_of": victim, "packet_index": i, "alone": alone[*g].get(*i), "interleaved": got[k]}));
+                            break;
+                        }
+                    }
+                }
+            }
+        }
+    }
+}
+
 /// an HTTP exchange with chosen initial sequence numbers, optionally closed by FIN from both sides
 fn http_conn_isn(name: &str, e: &Ends, req: &[u8], resp: &[u8], cisn: u32, sisn: u32, fin: bool, t: u64, syn_extra: u8) -> Conn {
     let mut pkts = vec![(seg(e, true, SYN | syn_extra, cisn, &[], None), t), (seg(e, false, SYN | ACK, sisn, &[], None), t + 1)];
@@ -428,9 +506,10 @@ pub fn run(thorough: bool) -> Outcome {
         r
     });
     check_successions(&mut pre);
+    check_capacity_pressure(&mut pre);
     Outcome {
         report: pre.merge(rep),
-        rule: "26 connections (TCP handshakes with timestamps incl. IPv6 and two clients using the same ephemeral port towards one server endpoint, ClientHello in 1/2/3 segments incl. IPv6, two HTTP/1 exchanges sharing a server, HTTP/2 exchanges: static only / literal with indexing / referencing foreign dynamic entries / size update 0 / state change followed by a decoding error / self reference, garbage after SYN, a TLS flow sharing the HTTP client's endpoint, and three pairs of twins that differ only in IP version - IPv4 vs the IPv4-mapped IPv6 form of the same addresses and ports - as timestamped handshake, ClientHello and HTTP/1 exchange): every unordered pair (thorough: every triple of the 8 shortest) in every order-preserving interleaving on fresh TCP, HTTP, TLS and unified analyzers (capacity 8), each packet's result compared with the isolated run; plus successions on one 4-tuple: 7 HTTP predecessors (complete, closed by FIN, request only, handshake only, unfinished head, binary) x HTTP/1 and HTTP/2 successors with other initial sequence numbers whose SYN is plain, ECN-setup (ECE|CWR), SYN|PSH or SYN|URG, 4 TLS predecessors x a ClientHello successor (plain and ECN-setup SYN), the successor's results compared with its isolated run; distinct = distinct per-trace result vectors".into(),
+        rule: "26 connections (TCP handshakes with timestamps incl. IPv6 and two clients using the same ephemeral port towards one server endpoint, ClientHello in 1/2/3 segments incl. IPv6, two HTTP/1 exchanges sharing a server, HTTP/2 exchanges: static only / literal with indexing / referencing foreign dynamic entries / size update 0 / state change followed by a decoding error / self reference, garbage after SYN, a TLS flow sharing the HTTP client's endpoint, and three pairs of twins that differ only in IP version - IPv4 vs the IPv4-mapped IPv6 form of the same addresses and ports - as timestamped handshake, ClientHello and HTTP/1 exchange): every unordered pair (thorough: every triple of the 8 shortest) in every order-preserving interleaving on fresh TCP, HTTP, TLS and unified analyzers (capacity 8), each packet's result compared with the isolated run; plus successions on one 4-tuple: 7 HTTP predecessors (complete, closed by FIN, request only, handshake only, unfinished head, binary) x HTTP/1 and HTTP/2 successors with other initial sequence numbers whose SYN is plain, ECN-setup (ECE|CWR), SYN|PSH or SYN|URG, 4 TLS predecessors x a ClientHello successor (plain and ECN-setup SYN), the successor's results compared with its isolated run; capacity pressure: pairs of 4 kinds of TLS connections that need one table slot at a time on analyzers with capacity 2, every interleaving; distinct = distinct per-trace result vectors".into(),
         exhaustive: true,
         bounds: json!({"connections": conns.len(), "groups": groups.len(), "max_group": if thorough {3} else {2}}),
     }
